@@ -2,9 +2,19 @@ package main
 
 import (
 	"bytes"
+	"crypto/ecdsa"
+	"crypto/elliptic"
+	crand "crypto/rand"
+	"crypto/rsa"
+	"crypto/sha1"
+	stdx509 "crypto/x509"
+	"crypto/x509/pkix"
+	"encoding/asn1"
 	"fmt"
+	"math/big"
 	"math/rand"
 	"sort"
+	"time"
 
 	"github.com/zmap/zlint/v3/lint"
 	"verif/harness/internal/corpus"
@@ -322,7 +332,16 @@ func cmdSig(args []string) {
 	for _, o := range c.Certs {
 		objs = append(objs, fromObj(o))
 	}
+	// certificates signed with their own key under another issuer name (issuer # subject, AKI = own SKI): not self-issued,
+	// so inside the property's quantifier, and the only ones on which a signature check could succeed
+	objs = append(objs, generatedSelfSignedNotSelfIssued()...)
 	h := newHistory(objs)
+	type kept struct {
+		oi int
+		vn string
+		t  *Target
+	}
+	var keep []kept
 	nvar, bases, skippedSelf := 0, 0, 0
 	var facts []ev.M
 	nrandom := 2
@@ -403,7 +422,16 @@ func cmdSig(args []string) {
 				"sameTBS": bytes.Equal(vt.Cert.RawTBSCertificate, t.Cert.RawTBSCertificate), "sameSigLen": len(vt.Cert.Signature) == len(t.Cert.Signature),
 				"sameAlg": vt.Cert.SignatureAlgorithm == t.Cert.SignatureAlgorithm})
 			h.lintTarget(oi, vt, 0, "sig:"+vn, false)
+			keep = append(keep, kept{oi, vn, vt})
 			nvar++
+		}
+	}
+	// second pass, variant-major: the same signature value (all zero, all ones, the shaped dummy) on one certificate after
+	// the other - what a pre-issuance pipeline does; the verdicts must still be those of the first pass (memo per base)
+	sort.SliceStable(keep, func(i, j int) bool { return keep[i].vn < keep[j].vn })
+	for _, k := range keep {
+		if k.vn == "zero" || k.vn == "ones" || k.vn == "ecdsa-shaped" || tier == "thorough" {
+			h.lintTarget(k.oi, k.t, 0, "sig-batch:"+k.vn, false)
 		}
 	}
 	n := h.write(out("history.ndjson"))
@@ -418,4 +446,71 @@ func cmdSig(args []string) {
 	}
 	ev.WriteJSON(out("summary.json"), ev.M{"events": n, "lint_calls": h.nLint, "variants": nvar, "bases": bases, "self_issued_skipped": skippedSelf, "bases_nontrivial": len(nontriv),
 		"objects": len(objs), "pairs_with_details": len(nontriv), "sample": ev.M{"variant": "flip-middle", "base": objs[0].ID}})
+}
+
+// generatedSelfSignedNotSelfIssued builds CA and subscriber certificates whose issuer name differs from the subject
+// name although they are signed with their own key and carry their own key identifier as authority key identifier.
+func generatedSelfSignedNotSelfIssued() []*Target {
+	var out []*Target
+	type keyT struct {
+		name string
+		priv interface{}
+		pub  interface{}
+	}
+	var keys []keyT
+	if k, err := rsa.GenerateKey(crand.Reader, 2048); err == nil {
+		keys = append(keys, keyT{"rsa2048", k, &k.PublicKey})
+	}
+	if k, err := ecdsa.GenerateKey(elliptic.P256(), crand.Reader); err == nil {
+		keys = append(keys, keyT{"p256", k, &k.PublicKey})
+	}
+	for _, k := range keys {
+		spki, err := stdx509.MarshalPKIXPublicKey(k.pub)
+		if err != nil {
+			continue
+		}
+		ski := sha1.Sum(spki)
+		for _, profile := range []string{"ca", "subca", "leaf", "leaf-old"} {
+			nb := time.Date(2024, 3, 1, 0, 0, 0, 0, time.UTC)
+			if profile == "leaf-old" {
+				nb = time.Date(2015, 3, 1, 0, 0, 0, 0, time.UTC)
+			}
+			tpl := &stdx509.Certificate{
+				SerialNumber: big.NewInt(0x5eed1234567), NotBefore: nb, NotAfter: nb.AddDate(1, 0, 0),
+				Subject:      pkix.Name{Country: []string{"US"}, Organization: []string{"Verif Subject"}, CommonName: "subject.example.com"},
+				SubjectKeyId: ski[:], BasicConstraintsValid: true,
+			}
+			parent := &stdx509.Certificate{
+				Subject:      pkix.Name{Country: []string{"US"}, Organization: []string{"Verif Issuer"}, CommonName: "Verif Issuing CA"},
+				SubjectKeyId: ski[:],
+			}
+			switch profile {
+			case "ca", "subca":
+				tpl.IsCA = true
+				tpl.KeyUsage = stdx509.KeyUsageCertSign | stdx509.KeyUsageCRLSign
+				tpl.Subject.CommonName = "Verif Subject CA"
+				if profile == "subca" {
+					tpl.PolicyIdentifiers = []asn1.ObjectIdentifier{{2, 23, 140, 1, 2, 2}}
+					tpl.ExtKeyUsage = []stdx509.ExtKeyUsage{stdx509.ExtKeyUsageServerAuth}
+					tpl.MaxPathLenZero = true
+				}
+			default:
+				tpl.KeyUsage = stdx509.KeyUsageDigitalSignature
+				tpl.ExtKeyUsage = []stdx509.ExtKeyUsage{stdx509.ExtKeyUsageServerAuth, stdx509.ExtKeyUsageClientAuth}
+				tpl.DNSNames = []string{"subject.example.com", "www.subject.example.com"}
+				tpl.PolicyIdentifiers = []asn1.ObjectIdentifier{{2, 23, 140, 1, 2, 2}}
+				tpl.OCSPServer = []string{"http://ocsp.example.com"}
+				tpl.IssuingCertificateURL = []string{"http://ca.example.com/ca.crt"}
+				tpl.CRLDistributionPoints = []string{"http://crl.example.com/ca.crl"}
+			}
+			der, err := stdx509.CreateCertificate(crand.Reader, tpl, parent, k.pub, k.priv)
+			if err != nil {
+				continue
+			}
+			if c, ok, _ := corpus.ParseCert(der); ok {
+				out = append(out, &Target{Kind: "cert", ID: "generated:own-key-other-issuer:" + k.name + ":" + profile, DER: der, Cert: c})
+			}
+		}
+	}
+	return out
 }
